@@ -60,6 +60,14 @@ def cases(tier, seed):
         for eps in (1e-6, 1e-10):
             for sd in range(S):
                 yield {'fn': 'interp_multi', 'N': N, 'eps': eps, 'seed': sd, 'start': 'none'}
+    # two calls in ONE process with different functions / shapes: the second must be as good as a first one (values cached
+    # across calls, module-level scratch state, default arguments that are mutated)
+    seqs = [([3, 4, 3], 'rank2', [3, 4, 3], 'smooth'), ([3, 4, 3], 'smooth', [4, 3, 4], 'rank3'), ([4, 4], 'rank2', [4, 4], 'rank3'),
+            ([2, 3, 4, 3], 'rank2', [3, 2, 6], 'rank2'), ([5, 5, 5], 'rank3', [5, 5, 5], 'rank1')]
+    for N1, t1, N2, t2 in seqs:
+        for eps in (1e-6, 1e-10):
+            yield {'fn': 'cross_twice', 'N': N2, 'tgt': t2, 'N1': N1, 'tgt1': t1, 'eps': eps, 'seed': 0, 'start': 'none'}
+            yield {'fn': 'interp_twice', 'N': N2, 'f': 'square', 'N1': N1, 'f1': 'inv', 'rx': 2, 'eps': eps, 'seed': 0, 'start': 'none'}
     for n in (1, 3, 7):
         yield {'fn': 'interp_uni', 'N': [n], 'f': 'square', 'rx': 1, 'eps': 1e-8, 'seed': 0, 'start': 'none'}
         yield {'fn': 'interp_multi', 'N': [n], 'eps': 1e-8, 'seed': 0, 'start': 'none'}
@@ -85,6 +93,19 @@ def _start(kind, N):
 
 
 def run_case(c):
+    if c['fn'] in ('cross_twice', 'interp_twice'):
+        # first call: its own result is checked by the single-call cases; here it only has to have happened
+        first = dict(c, fn='dmrg_cross' if c['fn'] == 'cross_twice' else 'interp_uni', N=c['N1'])
+        if c['fn'] == 'cross_twice':
+            first['tgt'] = c['tgt1']
+        else:
+            first['f'] = c['f1']
+        r1 = run_case({k: v for k, v in first.items() if k not in ('N1', 'tgt1', 'f1')})
+        second = {k: v for k, v in dict(c, fn=first['fn']).items() if k not in ('N1', 'tgt1', 'f1')}
+        r2 = run_case(second)
+        viol = [dict(v, cls=v['cls'].replace('dmrg_cross', 'dmrg_cross.second_call').replace('function_interpolate', 'function_interpolate.second_call')) for v in r2['violations']]
+        return Outcome('twice|' + '|'.join('%s=%s' % (k, c[k]) for k in sorted(c)), True, 'second:' + r2['outcome'], transitions=2,
+                       compared=r1['compared'] + r2['compared'], violations=viol)
     fn, N, eps = c['fn'], c['N'], c['eps']
     d = len(N)
     key = 'cross|' + '|'.join('%s=%s' % (k, c[k]) for k in sorted(c))
